@@ -202,76 +202,102 @@ def run_unit(unit: dict) -> dict:
             if events[k - 1][0] == "write":
                 points += [(k, 0.34), (k, 0.67)]
     mine = [p for i, p in enumerate(points) if i % unit["of"] == unit["shard"]]
-    for k, torn in mine:
+    cache: dict = {}
+
+    def eval_point(k, torn):
+        """Runs crash point (k, torn) + rerun + oracle; returns ('skip'|'inconclusive'|'ok', [violations])."""
+        if (k, torn) in cache:
+            return cache[(k, torn)]
         ev = events[k - 1]
-        case = {"scenario": name, "seed": seed, "k": k, "torn": torn, "effect": ev, "cmd": cmd, "effects": events}
-        acc.evaluations += 1
         restore(work, snap)
         env = {"ZMON_TRACE_ROOT": str(work), "ZMON_CRASH_AT": str(k)}
         if torn:
             env["ZMON_TORN"] = str(torn)
         acc.count("crash.injected")
         r1 = db.cli_subprocess(work, *cmd, today=day, extra_env=env)
+        if r1.rc == 88:
+            cache[(k, torn)] = ("skip", [])
+            return cache[(k, torn)]
         if r1.rc not in (86, 87):
-            acc.inconclusive.append(f"{name} k={k}: failpoint did not fire (rc={r1.rc}); effect order not reproducible? {r1.err[-200:]}")
-            continue
+            cache[(k, torn)] = ("inconclusive", [f"{name} k={k} torn={torn}: failpoint did not fire (rc={r1.rc}); effect order not reproducible? {r1.err[-200:]}"])
+            return cache[(k, torn)]
         acc.count("crash.exit86")
         r2 = db.cli_subprocess(work, *cmd, today=day)
-        acc.judged += 1
-        finding = FINDING_TORN if torn else None
         label = f"{ev[0]} {ev[1] if len(ev) > 1 else ''}" + (f" torn@{torn}" if torn else "")
+        sfx = " (torn write)" if torn else ""
+        out = []
         if r2.rc != 0:
-            acc.violation(f"{name}: crash before effect #{k} ({label}); rerunning `{' '.join(cmd)}` fails rc={r2.rc}: {r2.err[-300:]}", case, cls="rerun after crash fails" + (" (torn write)" if torn else ""), finding=finding)
-            continue
+            out.append(("rerun after crash fails" + sfx, f"{name}: crash before effect #{k} ({label}); rerunning `{' '.join(cmd)}` fails rc={r2.rc}: {r2.err[-300:]}", None))
+            cache[(k, torn)] = ("ok", out)
+            return cache[(k, torn)]
         acc.count("rerun.ok")
         files, dump, problems = masked_state(work, lacking)
-        bad = False
-        for p in problems + dump.problems:
-            bad = True
-            acc.violation(f"{name}: crash before #{k} ({label}) + rerun: {p}", case, cls="state broken after crash+rerun" + (" (torn write)" if torn else ""), finding=finding)
+        for p_ in problems + dump.problems:
+            out.append(("state broken after crash+rerun" + sfx, f"{name}: crash before #{k} ({label}) + rerun: {p_}", None))
         oa, ob = multiset_diff(files, dump.notes, db.NOTE_KEYS)
         if oa or ob:
-            bad = True
+            finding = None
             if not torn and ev[0] == "write" and not ev[1].startswith(".zorg") and any(e[0] == "write" and e[1] == ev[1] for e in events[: k - 1]):
                 # known mechanism: the page needs two write-backs in one run (modify dates, then new
                 # ZIDs); the hash recorded after the first one makes the rerun skip the page.  It
                 # explains the discrepancy iff every differing record belongs to exactly that page.
                 if all(json.loads(dict(x)["page"]) == ev[1] for x in oa + ob):
                     finding = FINDING_2ND
-            acc.violation(f"{name}: crash before #{k} ({label}) + rerun: files vs index: " + describe_diff(oa, ob, "files", "index"), case, cls="index != files after crash+rerun (" + _fields(oa, ob) + ")" + (" (torn write)" if torn else ""), finding=finding)
-        zs = [x["zid"] for x in dump.notes] + []
+            out.append(("index != files after crash+rerun (" + _fields(oa, ob) + ")" + sfx, f"{name}: crash before #{k} ({label}) + rerun: files vs index: " + describe_diff(oa, ob, "files", "index"), finding))
+        zs = [x["zid"] for x in dump.notes]
         fz = [x["zid"] for x in files if x["zid"]]
         if len(set(fz)) != len(fz) or len(set(zs)) != len(zs):
-            bad = True
-            acc.violation(f"{name}: crash before #{k} ({label}) + rerun: a ZID is carried by two different notes", case, cls="duplicate ZID after crash+rerun", finding=finding)
-        # no user text lost: every original line is still there modulo inserted ZID / YYMMDD words
+            out.append(("duplicate ZID after crash+rerun" + sfx, f"{name}: crash before #{k} ({label}) + rerun: a ZID is carried by two different notes", None))
         for rel, ol in orig_lines.items():
             f = work / rel
             if not f.exists():
                 continue
             nl = f.read_text().split("\n")
-            if len(nl) != len(ol) or any(not _same_modulo_ids(a, b) for a, b in zip(ol, nl)):
-                bad = True
-                acc.violation(f"{name}: crash before #{k} ({label}) + rerun: user text of {rel} changed beyond inserted ZID/YYMMDD words", case, cls="user text lost after crash+rerun" + (" (torn write)" if torn else ""), finding=finding)
+            if len(nl) != len(ol) or any(not _same_modulo_ids(a_, b_) for a_, b_ in zip(ol, nl)):
+                out.append(("user text lost after crash+rerun" + sfx, f"{name}: crash before #{k} ({label}) + rerun: user text of {rel} changed beyond inserted ZID/YYMMDD words", None))
                 break
-        if not bad:
+        if not out:
             final = sorted(db.canon(x) for x in mask(dump.notes, lacking))
             if final != base_final:
                 oa, ob = multiset_diff(mask(dump.notes, lacking), mask(b_dump.notes, lacking), db.NOTE_KEYS)
+                finding = None
                 first_hash_write = next((i for i, e in enumerate(events) if e == ["write", ".zorg/file_hash.json"]), len(events))
                 if not torn and ev[0] == "commit" and k - 1 < first_hash_write and _only_missing_stamps(oa, ob, day):
                     finding = FINDING_STAMP
-                acc.violation(f"{name}: crash before #{k} ({label}) + rerun: final index differs from the uninterrupted run (beyond names of allocated ZIDs): " + describe_diff(oa, ob, "crash+rerun", "uninterrupted"), case, cls="final state differs from uninterrupted run (" + _fields(oa, ob) + ")", finding=finding)
-            # fixpoint
+                out.append(("final state differs from uninterrupted run (" + _fields(oa, ob) + ")" + sfx, f"{name}: crash before #{k} ({label}) + rerun: final index differs from the uninterrupted run (beyond names of allocated ZIDs): " + describe_diff(oa, ob, "crash+rerun", "uninterrupted"), finding))
             before = snapshot(work)
-            r3 = db.cli_subprocess(work, *(["db", "reindex"]), today=day)
+            r3 = db.cli_subprocess(work, "db", "reindex", today=day)
             after = snapshot(work)
             ch = [x for x in after if x.endswith(".zo") and after[x] != before.get(x)]
             if r3.rc != 0 or ch:
-                acc.violation(f"{name}: crash before #{k} ({label}) + rerun: a further reindex rc={r3.rc} changes {ch}", case, cls="not a fixpoint after crash+rerun", finding=finding)
+                out.append(("not a fixpoint after crash+rerun" + sfx, f"{name}: crash before #{k} ({label}) + rerun: a further reindex rc={r3.rc} changes {ch}", None))
+        cache[(k, torn)] = ("ok", out)
+        return cache[(k, torn)]
+
+    for k, torn in mine:
+        ev = events[k - 1]
+        case = {"scenario": name, "seed": seed, "k": k, "torn": torn, "effect": ev, "cmd": cmd, "effects": events}
+        acc.evaluations += 1
+        status, out = eval_point(k, torn)
+        if status == "skip":
+            acc.not_judged += 1
+            continue
+        if status == "inconclusive":
+            acc.inconclusive.extend(out)
+            continue
+        acc.judged += 1
+        if torn and out:
+            # known mechanism (in-place, non-atomic writes): a torn file stays behind.  It explains the
+            # WHOLE discrepancy iff the very same crash point without the tear (i.e. with the file still
+            # holding its complete old content) is handled correctly.
+            pstatus, pout = eval_point(k, None)
+            clean = pstatus == "ok" and not [o for o in pout if o[2] is None]
+            out = [(c_, m_, FINDING_TORN if clean else None) for c_, m_, _f in out]
+        for cls, msg, finding in out:
+            acc.violation(msg, case, cls=cls, finding=finding)
         acc.sig((name if not name.startswith("rand") else "rand", ev[0], ev[1] if len(ev) > 1 else "", torn))
         if len(acc.samples) < 2:
-            acc.sample({"scenario": name, "cmd": cmd, "effects_of_uninterrupted_run": events, "crash_before": k, "rerun_rc": r2.rc})
+            acc.sample({"scenario": name, "cmd": cmd, "effects_of_uninterrupted_run": events, "crash_before": k, "torn": torn, "violations": [o[0] for o in out]})
     if unit["shard"] == 0:
         acc.exhaustive_dims[f"crash_points[{name}]"] = len(points)
     shutil.rmtree(base, ignore_errors=True)
